@@ -10,7 +10,7 @@ def rand_type(rng, n, allow_missing):
     props = []
     pool = list(range(n)) + ([n + 1] if allow_missing else [])
     for _ in range(rng.choice([0, 1, 1, 2, 2, 3])):
-        form = rng.choice(["req", "req", "opt", "arr", "or", "oropt", "scalar", "scalar", "nested", "addp"])
+        form = rng.choice(["req", "req", "opt", "arr", "or", "oropt", "scalar", "scalar", "nested", "addp", "arrmin", "arrmin2", "arrmin1of2"])
         if form in ("or", "oropt"):
             tg = rng.sample(pool, min(len(pool), rng.choice([2, 2, 3])))
         elif form == "scalar":
@@ -43,6 +43,15 @@ def print_type(props):
             wire.append("1 R 1 %d" % tg[0]); refs += tg
         elif form == "arr":
             body.append(("  %s: [%s]" % (k, name(tg[0])), ""))
+            wire.append("0 L"); refs += tg
+        elif form == "arrmin":       # an array that may not be empty: its item is required
+            body.append(("  %s: [ // {minItems: 1}\n    %s\n  ]" % (k, name(tg[0])), ""))
+            wire.append("0 R 1 %d" % tg[0]); refs += tg
+        elif form == "arrmin2":      # both positions are required
+            body.append(("  %s: [ // {minItems: 2}\n    1,\n    %s\n  ]" % (k, name(tg[0])), ""))
+            wire.append("0 O 2 0 L 0 R 1 %d" % tg[0]); refs += tg
+        elif form == "arrmin1of2":   # only the first position is required
+            body.append(("  %s: [ // {minItems: 1}\n    1,\n    %s\n  ]" % (k, name(tg[0])), ""))
             wire.append("0 L"); refs += tg
         elif form in ("or", "oropt"):
             body.append(("  %s: %s" % (k, " | ".join(name(t) for t in tg)), " // {optional: true}" if form == "oropt" else ""))
@@ -104,7 +113,15 @@ def pinned_root_only(wires):
             visited.discard(n)
             oks.append(ok)
         return (not oks) or any(oks)
-    return "ok" if check(env[0], True) else "E104"
+    if not check(env[0], True):
+        return "E104"
+    # fix 9a9fdc3: every named type once more as a root of its own, names resolved in ITS type list (empty here)
+    for n in range(len(env)):
+        visited.clear()
+        visited.add(n)
+        if not check(env[n], False):
+            return "E104"
+    return "ok"
 
 
 def run(ctx):
@@ -118,12 +135,12 @@ def run(ctx):
                                                                     and case.get("pinned_root_only") == "ok")
     ctx.extra["rule"] = ("directed type graphs over up to 6 object types whose properties are required references, optional references, array items, or-shortcuts (required/optional), "
                          "nested objects, additionalProperties types and scalars, with and without a missing type; both registration styles (types added to every schema / to the root only); "
-                         "Check verdict and code against the extracted Coq checker model and against inhabited_b (finite inhabitant); 1302 iff a referenced type is missing; UsedUserTypes = "
-                         "names in the root text, each once; Check/Validate/Example terminate (10 s alarm per case, crash isolation); plus all graphs on <= 2 types over 6 edge forms; "
+                         "Check verdict and code against the extracted Coq checker model (check_all: the root walk, then every type as its own root) and against inhabited_all_b (the root and every type have a finite inhabitant); 1302 iff a referenced type is missing; UsedUserTypes = "
+                         "names in the root text, each once; Check/Validate/Example terminate (10 s alarm per case, crash isolation); plus all graphs on <= 2 types over 9 edge forms (arrays with minItems: their first minItems positions are required); "
                          "non-trivial = graph with a cycle")
     cases = []
     # exhaustive small universe: 2 types, each with one property of every form pointing to either type
-    forms = ["req", "opt", "arr", "or", "nested", "scalar"]
+    forms = ["req", "opt", "arr", "or", "nested", "scalar", "arrmin", "arrmin2", "arrmin1of2"]
     for f0, f1 in itertools.product(forms, repeat=2):
         for a, b in itertools.product(range(2), repeat=2):
             g = [[(f0, [a] if f0 != "or" else [a, 1 - a])], [(f1, [b] if f1 != "or" else [b, 1 - b])]]
@@ -197,7 +214,7 @@ def run(ctx):
         if code != want:
             if len(ctx.violations) < 40 or md["roottypes"]:
                 ctx.report("recursion verdict: Check says %s, %s (registration: %s); types %r" % (
-                    chk, "a finite inhabitant exists" if inh == "T" else "no finite inhabitant exists (a chain of required references loops)",
+                    chk, "the root and every type have a finite inhabitant" if inh == "T" else "the root or some type has no finite inhabitant (a chain of required references loops)",
                     "root only" if md["roottypes"] else "every schema", md["types"][:4]), "c09rec:" + il, case, case=case)
         elif code != mv and not md["roottypes"] and len(ctx.violations) < 40:
             ctx.report("recursion verdict: Check says %s, Coq checker model says %s" % (chk, mv), "c09model:" + il, case, no_input=True)
@@ -259,6 +276,10 @@ def run(ctx):
          "private": [["@A", "@P", '{\n  "p": 2\n}']], "check": "ok", "used": ["@A"]},
         {"what": "a property names a type that was added to the referring type only (control)", "schema": "@A", "roottypes": True, "types": [["@A", '{\n  "x": @P\n}']],
          "private": [["@A", "@P", '{\n  "p": 2\n}']], "check": "ok", "used": ["@A"]},
+        {"what": "required cycle reached through an array only", "schema": "[@A]", "types": [["@A", '{\n  "a": @A\n}']], "check": "err", "used": ["@A"]},
+        {"what": "required cycle reached through an optional property only", "schema": '{\n  "k": @A // {optional: true}\n}', "types": [["@A", '{\n  "a": @A\n}']], "check": "err", "used": ["@A"]},
+        {"what": "required cycle reached through additionalProperties only", "schema": '{ // {additionalProperties: "@A"}\n}', "types": [["@A", '{\n  "a": @A\n}']], "check": "err", "used": ["@A"]},
+        {"what": "required cycle behind a union with a terminating alternative", "schema": "@A | @I", "types": [["@A", '{\n  "a": @A\n}'], ["@I", "1"]], "check": "err", "used": ["@A", "@I"]},
         {"what": "root file named like the type it contains", "schema": '{\n  "a": @A\n}', "rootname": "@A", "types": [["@A", "1"]], "check": "ok", "used": ["@A"]},
     ]
     # termination on an accepted dense graph: n object types, each a required union of all of them and a terminating @Z (every cycle ends in @Z)
